@@ -1204,8 +1204,12 @@ func (self *ArbiterVoter) DoCommit() error {
 	})
 
 	if len(responses) < len(self.manager.members)/2+1 {
-		self.proposalHost = ""
-		self.proposalFromHost = ""
+		self.glock.Lock()
+		if self.proposalFromHost == self.manager.ownMember.host {
+			self.proposalHost = ""
+			self.proposalFromHost = ""
+		}
+		self.glock.Unlock()
 		self.manager.slock.Log().Errorf("Arbier voter do commit fail")
 		return errors.New("member accept proposal count too small")
 	}
